@@ -72,8 +72,8 @@ None == Step("none", "", {})
 
 FirstBody(s) ==
   LET idx == {i \in 1..Len(s.hs) :
-                 DoNoopBody(s, i) \cup DoRespond(s, i) \cup DoStartBody(s, i) \cup DoStopBody(s, i) \cup DoStopKill(s, i) \cup DoKillBodyBasic(s, i)
-                 \cup DoKillSend(s, i) \cup DoTransBody(s, i) \cup DoTransCommit(s, i) \cup DoKBody(s, i) \cup DoKClose(s, i)
+                 DoNoopBody(s, i) \cup DoRespond(s, i) \cup DoStartBody(s, i) \cup DoStopBody(s, i) \cup DoStopPush(s, i) \cup DoStopKill(s, i) \cup DoKillBodyBasic(s, i)
+                 \cup DoKUnblock(s, i) \cup DoKillSend(s, i) \cup DoTransBody(s, i) \cup DoTransCommit(s, i) \cup DoKBody(s, i) \cup DoKClose(s, i)
                  \cup (IF SuppressTerm THEN {} ELSE DoKTerm(s, i)) \cup DoKInt(s, i) \cup DoKKill9(s, i)
                  \cup DoKEnd(s, i) # {}}
   IN IF idx = {} \/ SuppressBodies THEN None
@@ -90,7 +90,8 @@ FirstBody(s) ==
                [] DoRespond(s, i) # {} -> Step("Body", h.r, DoRespond(s, i))
                [] DoKillBodyBasic(s, i) # {} -> Step("Nop", "", DoKillBodyBasic(s, i))
                [] DoKillSend(s, i) # {} -> Step("Body", "Kill", DoKillSend(s, i))
-               [] OTHER -> Step("Nop", "", DoNoopBody(s, i) \cup DoStartBody(s, i) \cup DoStopBody(s, i) \cup DoStopKill(s, i))
+               [] OTHER -> Step("Nop", "", DoNoopBody(s, i) \cup DoStartBody(s, i) \cup DoStopBody(s, i) \cup DoStopPush(s, i)
+                                             \cup DoStopKill(s, i) \cup DoKUnblock(s, i))
 
 Eager(s) ==
   LET b == FirstBody(s) IN
